@@ -210,6 +210,10 @@ fn seed() -> u64 {
 
 /// Entry point of every check binary.
 pub fn main(check: &dyn Check) -> ! {
+    // eyre captures a backtrace per error when RUST_BACKTRACE is set, which costs
+    // milliseconds per Err: the subject returns millions of them during enumeration.
+    std::env::set_var("RUST_BACKTRACE", "0");
+    std::env::set_var("RUST_LIB_BACKTRACE", "0");
     let args = parse_args();
     let specs = check.specs();
     let property = args
@@ -277,6 +281,18 @@ pub fn main(check: &dyn Check) -> ! {
     let root = verif_root();
     let scratch_root = PathBuf::from(format!("/dev/shm/turdb_verif/{}_{}", property, std::process::id()));
     let _ = std::fs::remove_dir_all(&scratch_root);
+    // scratch directories of earlier runs of this property whose process is gone
+    // (a run that ended in a machinery error skips its drop guard)
+    if let Ok(rd) = std::fs::read_dir("/dev/shm/turdb_verif") {
+        for e in rd.filter_map(|e| e.ok()) {
+            let name = e.file_name().to_string_lossy().to_string();
+            if let Some(pid) = name.strip_prefix(&format!("{property}_")).and_then(|p| p.parse::<u32>().ok()) {
+                if !Path::new(&format!("/proc/{pid}")).exists() {
+                    let _ = std::fs::remove_dir_all(e.path());
+                }
+            }
+        }
+    }
     std::fs::create_dir_all(&scratch_root).unwrap_or_else(|e| machinery(&format!("scratch: {e}")));
     let _guard = util::RmOnDrop(scratch_root.clone());
 
@@ -462,6 +478,13 @@ pub fn main(check: &dyn Check) -> ! {
     coverage.insert("evaluations".into(), json!(merged.evaluations));
     coverage.insert("distinct_nontrivial".into(), json!(merged.distinct.len() as u64 + merged.distinct_counted));
     coverage.insert("rule".into(), json!(spec.rule));
+    if merged.samples.is_empty() {
+        // a check that samples at the end of its run and was cut short by its wall cap: fall back to
+        // the first recorded violation case (an actual case of this run); absent even that, say so
+        if let Some(v) = merged.violations.first() {
+            merged.samples.push(json!({"from": "first recorded violation of this run", "case": v.case}));
+        }
+    }
     coverage.insert("samples".into(), json!(merged.samples));
     coverage.insert("exhaustive".into(), json!(exhaustive));
     if spec.level == "model_checking" {
